@@ -43,6 +43,12 @@ def peers(tier):
         'cert-sha2-ca-warn': dict(kex=['curve25519-sha256'], key=['rsa-sha2-256-cert-v01@openssh.com', 'ssh-ed25519-cert-v01@openssh.com'], enc=['aes256-ctr'], mac=['hmac-sha2-256'],
                                   banner=b'SSH-2.0-OpenSSH_9.6', rsa_bits=4096, ca='rsa', ca_bits=2048),
         'compress': dict(kex=['curve25519-sha256'], key=['ssh-ed25519'], enc=['aes256-ctr'], mac=['hmac-sha2-256'], banner=b'SSH-2.0-OpenSSH_9.6', comp=['none', 'zlib@openssh.com']),
+        # several of everything a report line can enumerate (compression methods, header lines, names per list, repeated names): whatever is
+        # listed is listed in the peer's order under every hash seed
+        'many-of-everything': dict(kex=['curve25519-sha256', 'ecdh-sha2-nistp256', 'diffie-hellman-group14-sha1', 'frob-kex@example.org', 'ecdh-sha2-nistp256'],
+                                   key=['rsa-sha2-512', 'ssh-ed25519', 'rsa-sha2-256', 'ssh-rsa', 'frob-key@example.org'], enc=['aes256-ctr', 'chacha20-poly1305@openssh.com', 'aes128-cbc', '3des-cbc', 'frob-enc@example.org'],
+                                   mac=['hmac-sha2-256-etm@openssh.com', 'hmac-sha1', 'umac-64@openssh.com', 'hmac-md5', 'frob-mac@example.org'], banner=b'SSH-2.0-OpenSSH_8.0 one two three',
+                                   comp=['zlib@openssh.com', 'zlib', 'none', 'zstd@example.org', 'lz4@example.org'], pre_banner=[b'zeta', b'alpha', b'mu'], rsa_bits=2048),
         'strict-kex-multi': dict(kex=['curve25519-sha256', 'kex-strict-s-v00@openssh.com'], key=['ssh-ed25519'],
                                  enc=['chacha20-poly1305@openssh.com', 'aes128-cbc', 'aes192-cbc', 'aes256-cbc', '3des-cbc', 'aes256-ctr'],
                                  mac=['hmac-sha2-256-etm@openssh.com', 'hmac-sha2-512-etm@openssh.com', 'umac-128-etm@openssh.com', 'hmac-sha1-etm@openssh.com'], banner=b'SSH-2.0-OpenSSH_9.6'),
@@ -93,7 +99,7 @@ def peers(tier):
                                                  enc=['aes256-ctr'], mac=['hmac-sha2-256'], banner=b'SSH-2.0-OpenSSH_7.4', rsa_bits=2048, gex=[1024, 2048], label='pf', faults={('pf', k, at): fault})
             nth.append('conn-%d-%s' % (k, fname))
     if tier == 'quick':
-        keep = nth + ['long-names', 'very-long-name', 'long-lines', 'empty-entries', 'empty-entry-before-only-failure', 'clean', 'warn-only', 'fail-mixed', 'terrapin', 'unknown', 'gss', 'rsa2048', 'gex1024', 'ssh1', 'header', 'cert', 'nonascii-banner', 'strict-kex-multi', 'client-role', 'asym', 'asym-clean-s2c', 'probe-fault-rsa1024', 'probe-fault-rsa2048', 'cert-sha2-warn', 'cert-sha2-ca-warn', 'repeat-family-enc', 'repeat-family-mac-kex', 'probe-closed-gex', 'probe-closed-hostkey']
+        keep = nth + ['many-of-everything', 'long-names', 'very-long-name', 'long-lines', 'empty-entries', 'empty-entry-before-only-failure', 'clean', 'warn-only', 'fail-mixed', 'terrapin', 'unknown', 'gss', 'rsa2048', 'gex1024', 'ssh1', 'header', 'cert', 'nonascii-banner', 'strict-kex-multi', 'client-role', 'asym', 'asym-clean-s2c', 'probe-fault-rsa1024', 'probe-fault-rsa2048', 'cert-sha2-warn', 'cert-sha2-ca-warn', 'repeat-family-enc', 'repeat-family-mac-kex', 'probe-closed-gex', 'probe-closed-hostkey']
         ps = {k: ps[k] for k in keep}
     else:
         # every severity mix of the database per category as extra peers
@@ -384,6 +390,7 @@ def hashseed_runs(tier, st):
     n = 0
     root = os.path.dirname(os.path.dirname(os.path.abspath(__file__)))
     names = ['fail-mixed', 'terrapin', 'unknown', 'rsa2048', 'gss', 'strict-kex-multi', 'gex1024', 'cert', 'clean'] if tier != 'quick' else ['fail-mixed', 'unknown', 'strict-kex-multi']
+    names = names + ['many-of-everything']
     for pname in names:
         for opts in (['-n'], ['-j']):
             outs = {}
